@@ -28,9 +28,21 @@ func (o SortOrder) Fields() (fields []string) {
 	return fields
 }
 
+// Copy returns a sort order with its own Sort objects, so that Reverse (or Desc,
+// MissingFirst) on the copy leaves the original untouched.
 func (o SortOrder) Copy() SortOrder {
 	rv := make(SortOrder, len(o))
-	copy(rv, o)
+	for i, oi := range o {
+		c := &Sort{source: oi.source, desc: oi.desc, missingFirst: oi.missingFirst}
+		// the replacement for a missing value reads desc/missingFirst through
+		// pointers into the Sort it was built for: re-bind it to the copy
+		if m, ok := oi.source.(*MissingTextValueSource); ok {
+			if _, ok := m.replacement.(*sortFirstLast); ok {
+				c.source = MissingTextValue(m.primary, &sortFirstLast{desc: &c.desc, first: &c.missingFirst})
+			}
+		}
+		rv[i] = c
+	}
 	return rv
 }
 
